@@ -188,6 +188,14 @@ def steps(case, result):
                 returned.append((name, client.mailfrom(call[1]), None))
                 if not pipelining:
                     out += sync_check(name)
+            elif name == 'bad-hello':
+                # an identity that cannot be sent (not ASCII): the call fails, nothing was sent and no reply is owed
+                try:
+                    getattr(client, call[1])('cl\u00efent.example')
+                except UnicodeError:
+                    pass
+                else:
+                    out.append(('C10:non-ascii-identity-sent', desc))
             elif name == 'bad-address':
                 # an address that cannot be sent (non-ASCII, SMTPUTF8 not on offer): the call fails, nothing was sent and no reply is owed
                 try:
@@ -312,6 +320,8 @@ def case_strategy(draw):
 
     script.append(draw(reply_for(0, draw(st.sampled_from(['220', '220', '220', '554', '421'])))))
     hello = 'lhlo' if lmtp else draw(st.sampled_from(['ehlo', 'ehlo', 'helo']))
+    if draw(st.integers(0, 9)) == 0:
+        calls.append(['bad-hello', hello])
     calls.append([hello])
     hcode = draw(st.sampled_from(['250', '250', '250', '250', '500', '550']))
     hl = ['greeting r1 here']
@@ -325,6 +335,8 @@ def case_strategy(draw):
         pipelining = False
     script.append((hcode, hl))
     for t in range(draw(st.integers(1, 3))):
+        if draw(st.integers(0, 11)) == 0:
+            calls.append(['bad-hello', hello])
         if draw(st.integers(0, 5)) == 0:
             add(['custom', 'NOOP', ''], force=draw(st.sampled_from([None, None, '650', '099', '999'])))
         utf8_off = not (hcode == '250' and hello != 'helo' and 'SMTPUTF8' in hl)
